@@ -148,7 +148,8 @@ def run_tlc(module, cfg=None, workers=4, timeout=900, env=None, simulate=None, d
     md = tempfile.mkdtemp(prefix="rwsv-tlc-")
     res = TlcResult()
     cfg = cfg or module
-    jopts = ["-XX:+UseParallelGC", "-Xmx" + heap, "-Xss" + stack, "-DTLA-Library=" + SPEC]
+    # java.io.tmpdir inside the metadir: TLC otherwise leaves an empty /tmp/tlc-<n> directory behind per run
+    jopts = ["-XX:+UseParallelGC", "-Xmx" + heap, "-Xss" + stack, "-DTLA-Library=" + SPEC, "-Djava.io.tmpdir=" + md]
     sdir = spec_dir or SPEC
     if deque:
         jopts.append("-Dtlc2.tool.queue.IStateQueue=StateDeque")
